@@ -17,6 +17,11 @@ Decided:
   ORDER-C23c no loop driven by the iteration of a RandomState collection (HashMap/HashSet iterators) writes to the memory
              file or assigns file positions (Frame.payload_offset / *.bytes_offset): the iteration order differs between
              two runs of the same calls, and with it the layout of the file.
+  ORDER-C23d no function whose result reaches a field of the WAL entry built by put_internal (tags, labels, search text,
+             ...; local callees followed transitively) lets the iteration order of a HashMap/HashSet decide its
+             result: a hash iterator may be reduced commutatively, or collected and then fully sorted, but an
+             order-sensitive cut (truncate, take, select_nth_unstable*, first/last, ...) between the iteration and the
+             sort - or no sort at all - makes two runs of the same put differ (logical state, not only bytes).
 Not decided: byte identity itself (runtime), the logical-state half of the property."""
 import os, re
 from . import lib, extract
@@ -166,6 +171,47 @@ def run(ctx):
             else:
                 ctx.ok('ORDER-C23c', f, 'loop over a hash collection neither writes the file nor assigns file positions', line=c.line)
     ctx.floor('ORDER-C23c', n_loops, 3, 'loops driven by HashMap/HashSet iteration')
+    # ---- d
+    ctx.rule('ORDER-C23d', 'functions feeding the WAL entry of a put do not let HashMap/HashSet iteration order decide their result')
+    if put is not None:
+        srcs = set()
+        for bb, i, st in put.stmts():
+            rv = st['rv']
+            if rv['k'] == 'agg' and rv.get('adt') == 'WalEntryData':
+                for op in rv['ops']:
+                    for c in lib.slice_back(put, [op], through_calls=True, at=(bb, i)).calls:
+                        if c.local_callee and c.local_callee in F.fns:
+                            srcs.add(c.local_callee)
+        feed = lib.reachable_fns(F, [F.fns[p] for p in srcs])
+        ctx.floor('ORDER-C23d', len(feed), 50, 'functions feeding the WAL entry fields of a put')
+        ctx.evaluations += len(feed)
+        COMMUTATIVE = ('count', 'sum', 'len', 'any', 'all', 'max', 'min', 'contains', 'contains_key', 'is_empty', 'product')
+        CUTS = ('truncate', 'select_nth_unstable', 'select_nth_unstable_by', 'select_nth_unstable_by_key', 'first', 'last', 'pop', 'split_off', 'drain', 'take', 'nth', 'swap_remove', 'split_at')
+        n_bad = 0
+        for f in sorted(feed.values(), key=lambda x: x.path):
+            if f.r.get('derive'):
+                continue
+            its = [l for l in range(len(f.r['locals'])) if hash_it.search(f.local_ty(l))]
+            if not its:
+                continue
+            ctx.touch(f, len(f.blocks))
+            calls = f.calls()
+            sorts = [c for c in calls if c.name.startswith('sort')]
+            users = [c for c in calls if c.args and op_place(c.args[0]) is not None and op_place(c.args[0]).l in set(its) | set().union(*[lib.root_of(f, l) for l in its])]
+            if users and all(c.name in COMMUTATIVE for c in users):
+                ctx.ok('ORDER-C23d', f, 'hash iteration reduced commutatively (%s)' % ', '.join(sorted({c.name for c in users})))
+                continue
+            cuts = [c for c in calls if c.name in CUTS]
+            early_cut = [c for c in cuts if not any(lib.call_success_dominates(f, s_, c.bb) or f.dominates(s_.bb, c.bb) for s_ in sorts)]
+            if not sorts or early_cut:
+                n_bad += 1
+                what = ('cut by %s before any sort' % early_cut[0].name) if early_cut else 'never sorted'
+                ctx.bad('ORDER-C23d', f, 'a HashMap/HashSet is iterated on the way to a persisted field of the put (%s): its RandomState order decides the result, so two runs of the same put store '
+                        'different metadata' % what, line=(early_cut[0].line if early_cut else users[0].line if users else None), sink='WalEntryData', detail='hash-order-decides-persisted-value')
+            else:
+                ctx.ok('ORDER-C23d', f, 'hash iteration is collected and sorted before any order-sensitive cut')
+        if not n_bad:
+            ctx.ok('ORDER-C23d', put, 'no function feeding the WAL entry depends on hash iteration order (%d functions examined)' % len(feed))
     # ---- b
     seen = set()
     todo = [a for n in ROOT_TYPES for a in F.adts_by_name.get(n, [])]
